@@ -22,11 +22,11 @@ theorem inj_of_nodup_map {α β} {f : α → β} {l : List α} (h : (l.map f).No
 
 /-- the merged dict the write loop iterates: no repeated key, and exactly the overrides plus
 the defaults that were neither overridden nor disabled -/
-theorem merged_spec (rows : List Row) {ov : Overrides} (hov : (ovNames ov).Nodup) :
-    (names (merged rows ov)).Nodup ∧ ∀ x, x ∈ merged rows ov ↔
-      (∃ id v, (x.name, id, some v) ∈ ov ∧ x = ⟨x.name, id, v, false⟩) ∨
+theorem merged_spec (rows : List Row) (sup : String → Bool) {ov : Overrides} (hov : (ovNames ov).Nodup) :
+    (names (merged rows sup ov)).Nodup ∧ ∀ x, x ∈ merged rows sup ov ↔
+      (∃ id v, (x.name, id, some v) ∈ ov ∧ x = ⟨x.name, id, v, !sup x.name && minOf (defaultCfgs rows) x.name⟩) ∨
         (x ∈ defaultCfgs rows ∧ x.name ∉ ovNames ov) := by
-  obtain ⟨hn, hx⟩ := applyOverrides_spec (d := defaultCfgs rows) (defaultCfgs_nodup rows) hov
+  obtain ⟨hn, hx⟩ := applyOverrides_spec sup (d := defaultCfgs rows) (defaultCfgs_nodup rows) hov
   unfold merged
   simp only
   split
@@ -34,37 +34,57 @@ theorem merged_spec (rows : List Row) {ov : Overrides} (hov : (ovNames ov).Nodup
   · exact ⟨hn, hx⟩
 
 /-- Each setting is set at most once. -/
-theorem c16_at_most_once (rows : List Row) (ncp : Ncp) {ov : Overrides}
-    (hov : (ovNames ov).Nodup) : (setNames (writeConfigRows rows ncp ov)).Nodup := by
+theorem c16_at_most_once (rows : List Row) (ncp : Ncp) (sup : String → Bool) {ov : Overrides}
+    (hov : (ovNames ov).Nodup) : (setNames (writeConfigRows rows ncp sup ov)).Nodup := by
   unfold writeConfigRows
   rw [setNames_append, setNames_writeValues, List.nil_append]
-  exact (setNames_writeCfgs_sublist ncp _).nodup (merged_spec rows hov).1
+  exact (setNames_writeCfgs_sublist ncp _).nodup (merged_spec rows sup hov).1
 
-/-- A grow-only default that the user did not override is never written when the NCP
-already reports a value at least as large. -/
-theorem c16_never_shrink (rows : List Row) (ncp : Ncp) {ov : Overrides}
+/-- **Never shrink.**  Take a grow-only default `c` (every capacity default is one, `c16_tables`) whose key the
+user did not supply - whether the key is absent from the validated config or was filled in by the version's own
+schema.  Whatever is written for that setting is strictly above the value the NCP reports; in particular nothing
+is written when the NCP already reports at least the default. -/
+theorem c16_never_shrink (rows : List Row) (ncp : Ncp) (sup : String → Bool) {ov : Overrides}
     (hov : (ovNames ov).Nodup)
-    (c : Cfg) (hc : c ∈ defaultCfgs rows) (hmin : c.minimum = true) (hno : c.name ∉ ovNames ov)
-    (cur : Nat) (hcur : ncp.cur c.id = some cur) (hge : cur ≥ c.value) :
-    ∀ i v, Op.setCfg c.name i v ∉ writeConfigRows rows ncp ov := by
-  obtain ⟨hn, hx⟩ := merged_spec rows hov
-  intro i v hmem
+    (c : Cfg) (hc : c ∈ defaultCfgs rows) (hmin : c.minimum = true) (hno : sup c.name = false)
+    (cur : Nat) (hcur : ncp.cur c.id = some cur) :
+    ∀ i v, Op.setCfg c.name i v ∈ writeConfigRows rows ncp sup ov → i = c.id → cur < v := by
+  obtain ⟨hn, hx⟩ := merged_spec rows sup hov
+  intro i v hmem hi
   rcases List.mem_append.mp hmem with hm | hm
-  · exact mem_writeValues_no_setCfg hm
-  · obtain ⟨c', hc', hname, _, _, hskip⟩ := mem_writeCfgs_set.mp hm
-    rcases (hx c').mp hc' with ⟨id, w, hin, _⟩ | ⟨hdef, _⟩
-    · exact hno (by rw [← hname]; exact List.mem_map_of_mem hin)
+  · exact absurd hm mem_writeValues_no_setCfg
+  · obtain ⟨c', hc', hname, hid, hval, hskip⟩ := mem_writeCfgs_set.mp hm
+    have hcur' : ncp.cur c'.id = some cur := by rw [hid, hi]; exact hcur
+    rcases (hx c').mp hc' with ⟨id, w, hin, he⟩ | ⟨hdef, _⟩
+    · have hm' : c'.minimum = true := by
+        rw [he]
+        simp only [hname, hno, Bool.not_false, Bool.true_and]
+        rw [minOf_of_mem (defaultCfgs_nodup rows) hc]; exact hmin
+      simp only [skip, hcur', hm', Bool.true_and, decide_eq_false_iff_not, Nat.not_le] at hskip
+      omega
     · have : c' = c := same_name_eq (defaultCfgs_nodup rows) hdef hc hname
       subst this
-      simp [skip, hcur, hmin, hge] at hskip
+      simp only [skip, hcur', hmin, Bool.true_and, decide_eq_false_iff_not, Nat.not_le] at hskip
+      omega
+
+/-- the corollary in the property's words: nothing is written for such a setting when the NCP already reports
+at least the value the library would write -/
+theorem c16_never_shrink_quiet (rows : List Row) (ncp : Ncp) (sup : String → Bool) {ov : Overrides}
+    (hov : (ovNames ov).Nodup)
+    (c : Cfg) (hc : c ∈ defaultCfgs rows) (hmin : c.minimum = true) (hno : sup c.name = false)
+    (cur : Nat) (hcur : ncp.cur c.id = some cur) (v : Nat) (hge : cur ≥ v) :
+    Op.setCfg c.name c.id v ∉ writeConfigRows rows ncp sup ov := by
+  intro h
+  have := c16_never_shrink rows ncp sup hov c hc hmin hno cur hcur c.id v h rfl
+  omega
 
 /-- … and it *is* written (with the default value) when the current value is smaller or unreadable. -/
-theorem c16_grows_when_smaller (rows : List Row) (ncp : Ncp) {ov : Overrides}
+theorem c16_grows_when_smaller (rows : List Row) (ncp : Ncp) (sup : String → Bool) {ov : Overrides}
     (hov : (ovNames ov).Nodup)
     (c : Cfg) (hc : c ∈ defaultCfgs rows) (hno : c.name ∉ ovNames ov)
     (hlt : ∀ cur, ncp.cur c.id = some cur → c.minimum = true → cur < c.value) :
-    Op.setCfg c.name c.id c.value ∈ writeConfigRows rows ncp ov := by
-  obtain ⟨hn, hx⟩ := merged_spec rows hov
+    Op.setCfg c.name c.id c.value ∈ writeConfigRows rows ncp sup ov := by
+  obtain ⟨hn, hx⟩ := merged_spec rows sup hov
   refine List.mem_append_right _ (mem_writeCfgs_set.mpr ⟨c, (hx c).mpr (Or.inr ⟨hc, hno⟩), rfl, rfl, rfl, ?_⟩)
   unfold skip
   cases hcur : ncp.cur c.id with
@@ -76,13 +96,13 @@ theorem c16_grows_when_smaller (rows : List Row) (ncp : Ncp) {ov : Overrides}
 
 /-- A user-supplied value is written exactly as given (and nothing else for that setting),
 whatever the NCP currently reports. -/
-theorem c16_override_exact (rows : List Row) (ncp : Ncp) {ov : Overrides}
+theorem c16_override_exact (rows : List Row) (ncp : Ncp) (sup : String → Bool) {ov : Overrides}
     (hov : (ovNames ov).Nodup)
-    (n : String) (i v : Nat) (hin : (n, i, some v) ∈ ov) :
-    Op.setCfg n i v ∈ writeConfigRows rows ncp ov ∧
-      ∀ i' v', Op.setCfg n i' v' ∈ writeConfigRows rows ncp ov → i' = i ∧ v' = v := by
-  obtain ⟨hn, hx⟩ := merged_spec rows hov
-  have hcd : (⟨n, i, v, false⟩ : Cfg) ∈ merged rows ov := (hx _).mpr (Or.inl ⟨i, v, hin, rfl⟩)
+    (n : String) (i v : Nat) (hin : (n, i, some v) ∈ ov) (hsup : sup n = true) :
+    Op.setCfg n i v ∈ writeConfigRows rows ncp sup ov ∧
+      ∀ i' v', Op.setCfg n i' v' ∈ writeConfigRows rows ncp sup ov → i' = i ∧ v' = v := by
+  obtain ⟨hn, hx⟩ := merged_spec rows sup hov
+  have hcd : (⟨n, i, v, false⟩ : Cfg) ∈ merged rows sup ov := (hx _).mpr (Or.inl ⟨i, v, hin, by simp [hsup]⟩)
   constructor
   · refine List.mem_append_right _ (mem_writeCfgs_set.mpr ⟨_, hcd, rfl, rfl, rfl, ?_⟩)
     unfold skip; split <;> simp
@@ -96,10 +116,10 @@ theorem c16_override_exact (rows : List Row) (ncp : Ncp) {ov : Overrides}
 
 /-- Nothing is written for a disabled setting — whether or not it is among the defaults —
 and the write cannot fail on it (`writeConfigRows` is total: it has no error outcome). -/
-theorem c16_disabled_silent (rows : List Row) (ncp : Ncp) {ov : Overrides}
+theorem c16_disabled_silent (rows : List Row) (ncp : Ncp) (sup : String → Bool) {ov : Overrides}
     (hov : (ovNames ov).Nodup) (n : String) (i : Nat) (hin : (n, i, none) ∈ ov) :
-    ∀ i' v', Op.setCfg n i' v' ∉ writeConfigRows rows ncp ov := by
-  obtain ⟨hn, hx⟩ := merged_spec rows hov
+    ∀ i' v', Op.setCfg n i' v' ∉ writeConfigRows rows ncp sup ov := by
+  obtain ⟨hn, hx⟩ := merged_spec rows sup hov
   intro i' v' hmem
   rcases List.mem_append.mp hmem with hm | hm
   · exact mem_writeValues_no_setCfg hm
@@ -115,34 +135,34 @@ theorem c16_disabled_silent (rows : List Row) (ncp : Ncp) {ov : Overrides}
 
 /-- a version with defaults never fails, whatever the overrides -/
 theorem c16_write_total (v : Nat) (rows : List Row) (hv : defaults v = some rows) (ncp : Ncp)
-    (ov : Overrides) : writeConfig v ncp ov = .ok (writeConfigRows rows ncp ov) := by
+    (sup : String → Bool) (ov : Overrides) : writeConfig v ncp sup ov = .ok (writeConfigRows rows ncp sup ov) := by
   simp [writeConfig, hv]
 
 def ncp0 : Ncp := ⟨fun _ => none, fun _ => true, fun _ => true⟩
 
 /-- If the packet-buffer count is written, it is the last write of all — for every override
 set, including settings outside the defaults. -/
-theorem c16_buffer_last (rows : List Row) (ncp : Ncp) {ov : Overrides}
+theorem c16_buffer_last (rows : List Row) (ncp : Ncp) (sup : String → Bool) {ov : Overrides}
     (hov : (ovNames ov).Nodup)
-    (i v : Nat) (hmem : Op.setCfg packetBufferCountName i v ∈ writeConfigRows rows ncp ov) :
-    (writeConfigRows rows ncp ov).getLast? = some (Op.setCfg packetBufferCountName i v) := by
-  obtain ⟨hn0, _⟩ := applyOverrides_spec (d := defaultCfgs rows) (ov := ov) (defaultCfgs_nodup rows) hov
-  have hmn := (merged_spec rows hov).1
+    (i v : Nat) (hmem : Op.setCfg packetBufferCountName i v ∈ writeConfigRows rows ncp sup ov) :
+    (writeConfigRows rows ncp sup ov).getLast? = some (Op.setCfg packetBufferCountName i v) := by
+  obtain ⟨hn0, _⟩ := applyOverrides_spec sup (d := defaultCfgs rows) (ov := ov) (defaultCfgs_nodup rows) hov
+  have hmn := (merged_spec rows sup hov).1
   rcases List.mem_append.mp hmem with hm | hm
   · exact absurd hm mem_writeValues_no_setCfg
   · obtain ⟨c, hc, hname, hid, hval, hskip⟩ := mem_writeCfgs_set.mp hm
     -- the merged dict is `… ++ [c]`
-    have hshape : ∃ init, merged rows ov = init ++ [c] := by
+    have hshape : ∃ init, merged rows sup ov = init ++ [c] := by
       unfold merged at hc ⊢
       simp only at hc ⊢
       split at hc
       · rename_i hhas
         rw [if_pos hhas]
-        cases hg : (applyOverrides (defaultCfgs rows) ov).get? packetBufferCountName with
+        cases hg : (applyOverrides sup (defaultCfgs rows) ov).get? packetBufferCountName with
         | none =>
           exfalso
           rw [moveLast_none _ hg] at hc
-          have : (applyOverrides (defaultCfgs rows) ov).get? packetBufferCountName = some c :=
+          have : (applyOverrides sup (defaultCfgs rows) ov).get? packetBufferCountName = some c :=
             (get?_eq_some hn0 _ c).mpr ⟨hc, hname⟩
           rw [hg] at this; cases this
         | some c' =>
@@ -170,8 +190,8 @@ def lastSet : List Op → Option String
 /-- A rejected setting does not stop the remaining ones: the sequence of reads and writes
 is the same whatever the NCP answers to each set. -/
 theorem c16_reject_continues (rows : List Row) (cur : Nat → Option Nat) (a1 a2 v1 v2 : Nat → Bool)
-    (ov : Overrides) :
-    writeConfigRows rows ⟨cur, a1, v1⟩ ov = writeConfigRows rows ⟨cur, a2, v2⟩ ov := by
+    (sup : String → Bool) (ov : Overrides) :
+    writeConfigRows rows ⟨cur, a1, v1⟩ sup ov = writeConfigRows rows ⟨cur, a2, v2⟩ sup ov := by
   unfold writeConfigRows
   rw [writeValues_accept_indep cur a1 a2 v1 v2, writeCfgs_accept_indep cur a1 a2 v1 v2]
 
@@ -195,6 +215,10 @@ def tableOk (v : Nat) : Bool :=
       && (names (defaultCfgs rows)).getLast? == some packetBufferCountName
       && (cfg.map (·.name)).Nodup
       && cfg.all (fun r => !capacityNames.contains r.name || r.minimum)   -- every capacity default is grow-only
+      -- a capacity setting the schema fills in by itself replaces a grow-only default (and so stays grow-only)
+      && ((schemaFilled.lookup v).getD []).all (fun (n, i, _) => !capacityNames.contains n ||
+            cfg.any (fun r => r.name == n && r.id == i && r.minimum))
+      && (schemaFilled.lookup v).isSome
       && ((rows.filter (·.kind == 1)).map (·.id)).Nodup
       && tbl.all (fun a => tbl.all (fun b => (a.1 == b.1) == (a.2 == b.2)))
   | _, _ => false
@@ -205,11 +229,25 @@ theorem c16_tables : versions.all tableOk = true := by decide +kernel
 the override verbatim, nothing for the disabled key, and the buffer count last -/
 example :
     (match writeConfig 8 ⟨fun i => if i = 6 then some 64 else some 0, fun _ => true, fun _ => false⟩
-        [("CONFIG_KEY_TABLE_SIZE", 30, some 2), ("CONFIG_STACK_PROFILE", 12, none)] with
+        (fun _ => true) [("CONFIG_KEY_TABLE_SIZE", 30, some 2), ("CONFIG_STACK_PROFILE", 12, none)] with
      | .ok ops => ops.contains (.setCfg "CONFIG_KEY_TABLE_SIZE" 30 2)
                   && !(setNames ops).contains "CONFIG_STACK_PROFILE"
                   && !(setNames ops).contains "CONFIG_MULTICAST_TABLE_SIZE"
                   && lastSet ops == some packetBufferCountName
      | .error _ => false) = true := by decide +kernel
+
+/-- non-vacuity of the schema-filled case (the defect repaired in 0ec9f72): EZSPv7's schema fills in
+CONFIG_KEY_TABLE_SIZE = 12; with an NCP reporting 33 nothing is written for it, with an NCP reporting 5 it grows to 12;
+a user who supplies 12 gets 12 written over 33 -/
+example :
+    (match writeConfig 7 ⟨fun i => if i = 30 then some 33 else some 0, fun _ => true, fun _ => true⟩
+        (fun n => n != "CONFIG_KEY_TABLE_SIZE") [("CONFIG_KEY_TABLE_SIZE", 30, some 12)],
+      writeConfig 7 ⟨fun i => if i = 30 then some 5 else some 0, fun _ => true, fun _ => true⟩
+        (fun n => n != "CONFIG_KEY_TABLE_SIZE") [("CONFIG_KEY_TABLE_SIZE", 30, some 12)],
+      writeConfig 7 ⟨fun i => if i = 30 then some 33 else some 0, fun _ => true, fun _ => true⟩
+        (fun _ => true) [("CONFIG_KEY_TABLE_SIZE", 30, some 12)] with
+     | .ok a, .ok b, .ok c => !(setNames a).contains "CONFIG_KEY_TABLE_SIZE" && b.contains (.setCfg "CONFIG_KEY_TABLE_SIZE" 30 12)
+                              && c.contains (.setCfg "CONFIG_KEY_TABLE_SIZE" 30 12)
+     | _, _, _ => false) = true := by decide +kernel
 
 end BV.Props.C16
